@@ -5,9 +5,12 @@
   The `[Cxx, …]` tag in each doc comment lists the properties that depend on it.
 -/
 import HSModel.Generated
+import HSModel.GeneratedSync
 import HSModel.Algo
 import HSModel.Shard
 import HSModel.SyncText
+import HSModel.CliTable
+import HSModel.Proofs.Acq
 namespace HS.Tables
 
 /-- [C02, C06, C17] the "other" (non-default) algorithm list -/
@@ -58,41 +61,59 @@ theorem exceptionClasses_eq : Generated.exceptionClasses = some
 acquire / release / check / refuse text over the list and the condition of one lock class — the
 texts whose semantics the monitor `Locks.Step` is (`SyncText.lean`): the wait is in a `while`, the
 release notifies the condition the acquirers of that list wait on. -/
-theorem sync_sections_canonical : Generated.syncSections = SyncText.expectedSections := by decide +kernel
+theorem sync_sections_canonical : GeneratedSync.syncSections = SyncText.expectedSections := by decide +kernel
 
 /-- [C16] the multiprocessing branch of every section is the threading branch with `_mp` for `_th` -/
-theorem sync_mode_mirror : Generated.syncSections.all (fun s => s.2.1 == s.2.2) = true := by decide +kernel
+theorem sync_mode_mirror : GeneratedSync.syncSections.all (fun s => s.2.1 == s.2.2) = true := by decide +kernel
 
 /-- [C16] in multiprocessing mode every lock, condition and list is of the cross-process kind, and
 every class has its list and its condition -/
-theorem sync_init_mp_cross_process : ∃ t, Generated.syncInitMp = some t ∧
+theorem sync_init_mp_cross_process : ∃ t, GeneratedSync.syncInitMp = some t ∧
     t.all SyncText.crossProcessRow = true ∧
     (∀ c : LockClass, SyncText.hasListAndCond t c = true) :=
   ⟨_, rfl, by decide +kernel, by intro c; cases c <;> decide +kernel⟩
 
 /-- [C07, C08, C12] in threading mode every class has its list and its condition -/
-theorem sync_init_th_complete : ∃ t, Generated.syncInitTh = some t ∧
+theorem sync_init_th_complete : ∃ t, GeneratedSync.syncInitTh = some t ∧
     (∀ c : LockClass, SyncText.hasListAndCond t c = true) :=
   ⟨_, rfl, by intro c; cases c <;> decide +kernel⟩
 
 /-- [C16] the mode is read from the documented environment variable -/
-theorem mode_flag_eq : Generated.modeFlag =
+theorem mode_flag_eq : GeneratedSync.modeFlag =
     some ("USE_MULTIPROCESSING".toList, "False".toList, "True".toList) := by decide +kernel
 
 /-- [C07, C08, C12, C16] the lock order of the source: whenever a method (calls followed) acquires an
 identifier of one list while it may hold one of another, the class goes up in `LockClass.rank`
 (the side condition `hord` of `Step.request`; the order `ConcSafe` uses) — in particular no list is
 acquired while an identifier of the same list is held. -/
-theorem lock_order_ascends : ∃ es, Generated.lockOrderEdges = some es ∧
+theorem lock_order_ascends : ∃ es, GeneratedSync.lockOrderEdges = some es ∧
     es.all SyncText.edgeAscends = true := ⟨_, rfl, by decide +kernel⟩
 
 /-- [C07, C08, C12, C13, C16] every claim of an identifier in the source is released on every exit —
 the matching release stands in the `finally` of a `try` the claim lies in or of the `try` that is
 the very next statement (the source-level form of the discipline `Prog.Disc` that `calls_disciplined`
 proves of the model's program texts) — and the claims are those of the model's calls. -/
-theorem acquire_sites_guarded : ∃ ss, Generated.acquireSites = some ss ∧
+theorem acquire_sites_guarded : ∃ ss, GeneratedSync.acquireSites = some ss ∧
     ss.all SyncText.siteGuarded = true ∧
     ss.map SyncText.siteKey = SyncText.expectedSites.map (fun e => (e.1, some e.2)) :=
   ⟨_, rfl, by decide +kernel, by decide +kernel⟩
+
+/-- [C07, C08, C12, C16] **The lists an API method of the source may claim an identifier of — every method body walked
+    with calls followed, translated on every run (`synctext.public_acquires`) — are exactly the classes
+    the corresponding call of the model may claim** (`classesOf`, proved of the program texts by
+    `calls_claim_only_their_classes`). -/
+theorem source_claims_are_model_claims :
+    GeneratedSync.publicAcquires = reps.map (fun c => (apiName c, (classesOf c).map SyncText.listOf)) := by
+  decide +kernel
+
+/-- [C20] the table `harness/hsv/clitext.py` translates from the source's `main()` on every run — the `elif`
+chain verb by verb (flag, required variables in order, conversions, API method, argument variables in
+order, what is done with the result besides printing), the option variables and the default of the
+format id — is the table of the model, whose generic interpretation `C20.dispatch_is_table` proves the
+model's `dispatch` to be -/
+theorem client_table_is_source :
+    GeneratedSync.clientRows.map CliTable.Row.ofTuple = CliTable.verbTable ∧
+    GeneratedSync.clientVars = CliTable.varSources ∧
+    GeneratedSync.clientFormatDefault = some CliTable.formatDefault := by decide +kernel
 
 end HS.Tables
